@@ -4,6 +4,7 @@ Lean driver on the same cases), property oracle on the real code's results, know
 failing-input search, evidence and replay files.  See DESIGN.md §5.
 """
 import hashlib
+import itertools
 import json
 import os
 import random
@@ -168,6 +169,39 @@ def run_check(prop, tier, seed, replay=None):
     else:
         proof_problems.append("driver not built")
 
+    # ---- 2b. change-directed deepening: where typedpy's source moved away from the pinned tree the models were
+    # validated against (extract/srcpins.py), run more, differently seeded cases within a time budget.  A moved
+    # function is not an obligation and never an alarm by itself; it only buys more search on a changed tree.
+    changed_src, deepen = [], None
+    try:
+        from extract import srcpins
+        changed_src = srcpins.changed(os.environ.get("VERIF_REPO", "/repo"))
+    except Exception as e:  # the pin file is an aid, never a reason to fail
+        changed_src = []
+        deepen = {"error": f"{type(e).__name__}: {e}"}
+    force = os.environ.get("VERIF_DEEPEN", "1") == "force"   # development: hunt for latent false alarms on a clean tree
+    if (changed_src or force) and driver_ok and not replay and os.environ.get("VERIF_DEEPEN", "1") != "0":
+        budget = float(os.environ.get("VERIF_DEEPEN_S", "40" if tier == "quick" else "300"))
+        t_d, n0, rounds = time.time(), outcome.evaluations, 0
+
+        def unlisted():
+            return any(f[3] not in known for f in outcome.failures)
+        while time.time() - t_d < budget and not unlisted():
+            rounds += 1
+            d_rng = random.Random((seed + 1) * 104729 + rounds * 7919 + int(prop_id[1:]))
+            try:
+                gen = itertools.chain(prop.search_cases(d_rng, tier), prop.cases(d_rng, tier))
+                while time.time() - t_d < budget and not unlisted():
+                    chunk = list(itertools.islice(gen, 250))
+                    if not chunk:
+                        break
+                    explore(prop, chunk, outcome)
+            except Exception as e:
+                deepen = {"error": f"{type(e).__name__}: {e}"}
+                break
+        deepen = dict(deepen or {}, rounds=rounds, extra_evaluations=outcome.evaluations - n0,
+                      seconds=round(time.time() - t_d, 1))
+
     # ---- 3. known findings / new failures
     known_hit = {}
     new_failures = []
@@ -244,6 +278,8 @@ def run_check(prop, tier, seed, replay=None):
             "fixed_findings": [f.get("summary", "") for f in fixed],
             "build_s": round(build_s, 1),
             "olean_recheck": recheck,
+            "source_units_changed_since_pin": changed_src[:40],
+            "change_directed_deepening": deepen,
         },
         "assumptions": list(getattr(prop, "ASSUMPTIONS", [])),
         "wall_s": round(wall, 2),
